@@ -777,3 +777,105 @@ func verifYamlJson(n JsonNode) bool {
 	}
 	return true
 }
+
+// ---------------------------------------------------------------------
+// C08: set and multiset hunks have set / bag semantics, independent of the order of the target.
+
+// verifSetSemantics: apply the root-level set/multiset hunks of a.Diff(b, options) to target c and
+// compare with a reference that removes exactly the listed members (failing when one is absent, or
+// not present often enough for a multiset) and adds the listed ones.
+func verifSetSemantics(a, b, c jsonArray, options []Option) bool {
+	kind := specArrayKind(options)
+	if kind != 2 && kind != 3 {
+		return true
+	}
+	if _, keyed := getOption[setKeysOption](options); keyed {
+		return true
+	}
+	d := a.Diff(b, options...)
+	ref := append([]JsonNode{}, verifCloneNodes(c)...)
+	if kind == 2 {
+		// a set target: duplicates collapse
+		var dedup []JsonNode
+		for _, x := range ref {
+			dup := false
+			for _, y := range dedup {
+				if specEq(x, y, options) {
+					dup = true
+				}
+			}
+			if !dup {
+				dedup = append(dedup, x)
+			}
+		}
+		ref = dedup
+	}
+	expectErr := false
+	for _, e := range d {
+		if len(e.Path) != 1 {
+			return true // nested or keyed hunk: outside this oracle
+		}
+		switch e.Path[0].(type) {
+		case PathSet, PathMultiset:
+		default:
+			return true
+		}
+		for _, r := range e.Remove {
+			found := -1
+			for i, x := range ref {
+				if specEq(x, r, options) {
+					found = i
+					break
+				}
+			}
+			if found < 0 {
+				expectErr = true
+				break
+			}
+			ref = append(ref[:found:found], ref[found+1:]...)
+		}
+		if expectErr {
+			break
+		}
+		for _, x := range e.Add {
+			if kind == 2 {
+				dup := false
+				for _, y := range ref {
+					if specEq(x, y, options) {
+						dup = true
+					}
+				}
+				if dup {
+					continue
+				}
+			}
+			ref = append(ref, x)
+		}
+	}
+	r, err := verifCloneNode(c).Patch(verifCloneDiff(d))
+	if expectErr {
+		return err != nil
+	}
+	if err != nil {
+		return false
+	}
+	return r.Equals(jsonArray(ref), options...)
+}
+
+// verifSetPatchNonArray: a set / multiset hunk applied to something that is not an array fails.
+func verifSetPatchNonArray(n JsonNode, e DiffElement) bool {
+	if len(e.Path) != 1 || e.Metadata.Merge {
+		return true
+	}
+	switch e.Path[0].(type) {
+	case PathSet, PathMultiset:
+	default:
+		return true
+	}
+	switch n.(type) {
+	case jsonArray, jsonList, jsonSet, jsonMultiset:
+		return true
+	}
+	_, err := verifCloneNode(n).Patch(Diff{e})
+	return err != nil
+}
